@@ -53,13 +53,25 @@ def nontrivial(s):
                 and sc["mode"] == "VerifyOnly" and m["seed"] == 0)
 
 
+_FAMILY = {}
+
+
+def family_behaviours(family, tier, wd, workers=8):
+    """TLC's exhaustive run of MC_Api over one family (model checking + one REPLAY line per behaviour); within one check the
+    same family is enumerated once and the behaviours reused by the stages that replay or sample them."""
+    key = (family, tier)
+    if key not in _FAMILY:
+        _FAMILY[key] = vlib.run_tlc("MC_Api", api_cfg(family, tier), wd, workers=workers, timeout=3000)
+    return _FAMILY[key]
+
+
 def api_stage(prop, family, tier, seed, groups=("fm", "rist"), scale=None, scale_min=0, limit=None, workers=8, sample_rate=1.0,
               negative=None, filter_fn=None, profile="release", must_fn=None):
     """TLC model-checks BPPApi over `family`, prints every behaviour; the harness replays all of them on the library."""
     st = StageResult("api:" + family)
     t0 = time.time()
     wd = vlib.workdir(f"{prop}_api_{family}")
-    r = vlib.run_tlc("MC_Api", api_cfg(family, tier), wd, workers=workers, timeout=3000)
+    r = family_behaviours(family, tier, wd, workers)
     if not r["ok"]:
         if r["violated"]:
             # the specification itself violates its own property: a modelling error, never blamed on the code
@@ -90,13 +102,28 @@ def api_stage(prop, family, tier, seed, groups=("fm", "rist"), scale=None, scale
     st.samples += [{"scenario": scen[i]["sc"], "predicted": scen[i]["expect"]} for i in sorted(rng.sample(range(len(scen)), min(2, len(scen))))]
     st.notes["scenarios"] = len(scen)
     st.notes["outcome_classes"] = {}
-    for g in groups:
-        args = ["run", "--scen", path, "--group", g, "--seed", str(seed)]
+    # the scenarios are executed in shards, several harness processes side by side (numbering stays global: the randomness a
+    # scenario uses is derived from its index)
+    from concurrent.futures import ThreadPoolExecutor
+    nsh = max(1, min(6, (len(scen) + 249) // 250))
+    bounds = [(len(scen) * k // nsh, len(scen) * (k + 1) // nsh) for k in range(nsh)]
+    shard_paths = []
+    for k, (lo, hi) in enumerate(bounds):
+        sp_ = os.path.join(wd, f"scen_{k}.ndjson")
+        with open(sp_, "w") as fh:
+            for s_ in scen[lo:hi]:
+                fh.write(json.dumps(s_) + "\n")
+        shard_paths.append(sp_)
+
+    def run_shard(job):
+        g, k = job
+        lo, hi = bounds[k]
+        args = ["run", "--scen", shard_paths[k], "--group", g, "--seed", str(seed), "--first-index", str(lo)]
         if scale:
             args += ["--scale", scale, "--scale-min", str(scale_min)]
         # the code under test may take the whole process down (abort on a huge allocation, stack overflow, endless loop caught
         # by the watchdog): that scenario is a violation, the rest is executed after it
-        prog = os.path.join(wd, f"progress_{g}")
+        prog = os.path.join(wd, f"progress_{g}_{k}")
         skip = 0
         out = {"executed": 0, "classes": {}, "mismatches": []}
         for _attempt in range(8):
@@ -108,12 +135,28 @@ def api_stage(prop, family, tier, seed, groups=("fm", "rist"), scale=None, scale
                 out["mismatches"] += part["mismatches"]
                 break
             except vlib.HarnessDied as e:
-                idx = int(open(prog).read().strip()) if os.path.exists(prog) else skip
+                idx = int(open(prog).read().strip()) if os.path.exists(prog) else lo + skip
                 what = "did not return (watchdog)" if e.rc == 3 else f"took the process down (exit status {e.rc})"
                 out["mismatches"].append({"index": idx, "group": g, "seed": seed, "scale": scale, "scenario": scen[idx] if idx < len(scen) else {"sc": {"members": []}, "expect": {}},
                                           "message": f"panic: the call {what}: {e.stderr.strip()[-200:]}"})
-                out["executed"] += idx - skip + 1
-                skip = idx + 1
+                out["executed"] += idx - lo - skip + 1
+                skip = idx - lo + 1
+                if lo + skip >= hi:
+                    break
+        return out
+
+    jobs = [(g, k) for g in groups for k in range(nsh)]
+    with ThreadPoolExecutor(max_workers=8) as ex:
+        results = list(ex.map(run_shard, jobs))
+    for g in groups:
+        out = {"executed": 0, "classes": {}, "mismatches": []}
+        for (g2, k), part in zip(jobs, results):
+            if g2 != g:
+                continue
+            out["executed"] += part["executed"]
+            for k_, v_ in part["classes"].items():
+                out["classes"][k_] = out["classes"].get(k_, 0) + v_
+            out["mismatches"] += part["mismatches"]
         st.evaluations += out["executed"]
         st.traces += out["executed"]
         st.notes["outcome_classes"][g] = out["classes"]
@@ -300,7 +343,7 @@ def long_batch_stage(prop, name, count, seed, weights_only=True, mode="VerifyOnl
 def pick_scenarios(family, tier, seed, pred, count, prop="x", must=None, must_count=2):
     """Behaviours of MC_Api[family] satisfying pred, a seeded sample of `count` (of which up to `must_count` satisfy `must`)."""
     wd = vlib.workdir(f"{prop}_pick_{family}")
-    r = vlib.run_tlc("MC_Api", api_cfg(family, tier), wd, workers=8, timeout=3000)
+    r = family_behaviours(family, tier, wd, 8)
     if not r["ok"]:
         raise vlib.ToolError(f"TLC failed on MC_Api[{family}]:\n" + r["out"][-2000:])
     scen = [s for s in vlib.replay_lines(r["out"]) if pred(s)]
@@ -598,29 +641,53 @@ def threads_stage(prop, tier, seed, races=6, race_threads=8):
     # reference: each call alone, in its own fresh single-threaded process
     ref_lines = ""
     flood = ["--flood", "40000" if q else "300000"]
-    for c in range(16):
+    from concurrent.futures import ThreadPoolExecutor
+
+    def ref(c):      # (each reference call is alone in its own fresh single-threaded process; the processes run side by side)
         refp = os.path.join(wd, f"ref{c}.ndjson")
         vlib.run_harness(["threads", "--reference", str(c), "--out", refp] + flood)
-        ref_lines += open(refp).read()
+        return open(refp).read()
+    with ThreadPoolExecutor(max_workers=8) as ex:
+        ref_lines = "".join(ex.map(ref, range(16)))
     files = []
     hp_out = os.path.join(wd, "hist_trace.ndjson")
-    vlib.run_harness(["threads", "--histories", hp, "--out", hp_out] + flood, timeout=3000)
-    files.append(("histories", hp_out))
     lp = os.path.join(wd, "long.ndjson")
-    vlib.run_harness(["threads", "--long", "400" if q else "3000", "--out", lp] + flood, timeout=3000)
+    # the forced hand-off histories and the long history are single-file runs (one running thread at a time): side by side
+    # (the histories in four processes, each a contiguous part with global run numbers)
+    nsh = 4
+    jobs = [["threads", "--long", "400" if q else "3000", "--out", lp] + flood]
+    for k in range(nsh):
+        lo, hi = len(hist) * k // nsh, len(hist) * (k + 1) // nsh
+        hpk = os.path.join(wd, f"hist_{k}.ndjson")
+        with open(hpk, "w") as fh:
+            for h in hist[lo:hi]:
+                fh.write(json.dumps(h) + "\n")
+        jobs.append(["threads", "--histories", hpk, "--run-base", str(lo), "--out", os.path.join(wd, f"hist_trace_{k}.ndjson")] + flood)
+    with ThreadPoolExecutor(max_workers=5) as ex:
+        list(ex.map(lambda a: vlib.run_harness(a, timeout=3000), jobs))
+    with open(hp_out, "w") as fh:
+        for k in range(nsh):
+            fh.write(open(os.path.join(wd, f"hist_trace_{k}.ndjson")).read())
+    files.append(("histories", hp_out))
     files.append(("long", lp))
+    # the free-running races have the machine to themselves, one after the other
     for i in range(races if q else races * 5):
         rp = os.path.join(wd, f"race{i}.ndjson")
         vlib.run_harness(["threads", "--race", str(race_threads if i % 2 == 0 else 2 + (i % 15)), "--run", str(i), "--out", rp] + flood, timeout=3000)
         files.append((f"race{i}", rp))
     tcfg = "SPECIFICATION Spec\nCONSTRAINT Progress\nPOSTCONDITION Accepted\nCHECK_DEADLOCK FALSE\n"
-    for name, fp in files:
+
+    def validate(item):
+        name, fp = item
         wdr = vlib.workdir(f"{prop}_tvthr_{name}")
         p = os.path.join(wdr, "trace.ndjson")
         body = open(fp).read()
         with open(p, "w") as fh:
             fh.write(ref_lines + body)
-        rr = vlib.run_tlc("TraceThreads", tcfg, wdr, workers=1, timeout=1500, java_opts=TRACE_JAVA, env_extra={"TRACE": p})
+        return body, vlib.run_tlc("TraceThreads", tcfg, wdr, workers=1, timeout=1500, java_opts=TRACE_JAVA, env_extra={"TRACE": p})
+    with ThreadPoolExecutor(max_workers=8) as ex:
+        validated = list(ex.map(validate, files))
+    for (name, fp), (body, rr) in zip(files, validated):
         st.states += rr.get("distinct", 0)
         st.transitions += rr.get("generated", 0)
         nev = body.count("\n")
